@@ -20,23 +20,40 @@ package run
 //	    below that (even the number depends on the schedule).  Ids are read after the
 //	    terminal operation returned (it waits for the goroutines of a concurrent map).
 //
-//	Q <sep|pack> n=<rows> w=<width> caps=<k:m,...> <seq|alt|joinI|joinL|joinF|joinsharedI> | <chain P> | <chain Q> | <chain post>
-//	    chain := "-" | stage.stage...   stage := A<val> append field | S<val>+<val>.. select fields | D drop odd rows
-//	    val := c<int> constant | r<idx> ref to column idx of the row available to that stage
-//	    One shared static source: row slices with spare capacity k (sep: make([]any,w,w+k) per row; pack: all rows
-//	    carved out of one backing array without a capacity limit, so the spare capacity of a row IS the following
-//	    rows, plus k cells at the end) and a metadata slice make([]FieldMeta,w,w+m); spare cells hold sentinels.
-//	    seq: P and Q executed, then collected one after the other (one datasource object);
-//	    alt: both executed, then pulled alternately through iter.Pull (one datasource object per pipeline over the
-//	         SAME caller slices); join*: P and Q are the two sides of a JoinDatasource, post chain on top.
-//	    observation: for every k:m "[k:m P=<rows> mP=<urns> Q=<rows> mQ=<urns> u=<caller data unchanged>]"
-//	    (join: J=, mJ=).  Everything is formatted after all consumption ended.
+//	Q <sep|pack|sepn|packn> n=<rows> w=<width> caps=<k:m,...> <mode> | <chain P> | <chain Q> | <chain post>
+//	    (implementation: c17_query.go)
+//	    chain := "-" | stage.stage...      val := c<int> | r<idx> | n(v,v) nvl | p(v,v) numeric + | g(a,b,t,f) selector over the
+//	                                              condition a > b | k(v) cast integer -> decimal -> integer
+//	    stage := A<val> append field | S<val>+<val>.. select fields (a ref may name an already selected field)
+//	           | D drop the rows of odd seconds (harness filter, hands rows on)
+//	           | R<idx>=<val> ReplaceField | O<idx> OverrideFieldMetadata (rows handed on) | X<idx>+.. DropFields
+//	           | F<val> SingleField | C<val>,<val> Condition val > val (rows handed on)
+//	           | B<idx>[d|r|a<p>|f<p>|l<p>] ToDatasource(column idx) -> [Delta | Rate, cast back to integer | datasource
+//	             aligner without fill / forward fill / linear, period p half seconds] -> FromDatasource
+//	           | G<p>[f|l] report AlignerFilter (fixed period of p half seconds; forward fill / linear gap filling)
+//	    One shared static source: n rows one second apart, cell j of row i = 100 i + j + 1 (layouts with the suffix n: the
+//	    last column is optional and nil in the rows i = 1 mod 3); row slices with spare capacity k (sep: make([]any,w,w+k)
+//	    per row; pack: all rows carved out of one backing array without a capacity limit, so the spare capacity of a row
+//	    IS the following rows, plus k cells at the end) and THREE metadata slices make([]FieldMeta,w,w+m) over the same
+//	    rows (urns s*, t*, v*, so that the same rows can enter one join more than once); spare cells hold sentinels.
+//	    modes: seq   P(S), Q(S) executed, then collected one after the other (one datasource object)
+//	           alt   the same, pulled alternately through iter.Pull (one datasource object per pipeline over the SAME
+//	                 caller slices)
+//	           joinI|joinL|joinF   post(Join[P(S), Q(S)])        j3I|j3L|j3F   post(Join[P(S), T, Q(V)])  (T, V: the
+//	                 plain source under the t / v metadata: the middle side's rows are the caller's rows)
+//	           tj<I|L|F><s|a>   J1 = post(Join[S, P(T)]) and J2 = post(Join[S, Q(T)]) over the shared rows, consumed one
+//	                 after the other (s) or alternately (a);  tk…: the sides swapped (Join[P(T), S], Join[Q(T), S])
+//	    After all consumption ended the plain static source and then every result datasource are executed AGAIN.
+//	    observation: for every k:m "[k:m P=<rows> aP=<memory of every row: c<i> the caller's row i, f its own, d<j> shared
+//	    with the earlier row j> mP=<urns> Q=<rows> aQ=.. mQ=<urns> u=<caller data unchanged>
+//	    x=<the source executed again delivers the original rows> y=<every pipeline executed again delivers what it did>]"
+//	    (one result: J=, mJ=).  Everything is formatted at the very end.  Timestamps: seconds after the base instant
+//	    ("<n>h" = n half seconds when not whole).
 
 import (
 	"context"
 	"fmt"
 	"io"
-	"iter"
 	"runtime"
 	"sort"
 	"strconv"
@@ -44,9 +61,6 @@ import (
 	"time"
 
 	"github.com/shpandrak/shpanstream/stream"
-	"github.com/shpandrak/shpanstream/utils/timeseries"
-	"github.com/shpandrak/shpanstream/utils/timeseries/tsquery"
-	"github.com/shpandrak/shpanstream/utils/timeseries/tsquery/report"
 )
 
 func init() {
@@ -332,427 +346,6 @@ func c17ExecD(text string) string {
 }
 
 // ---------------------------------------------------------------------------------------------
-// Q: report pipelines over one shared static source
-// ---------------------------------------------------------------------------------------------
-
-type c17Val struct {
-	ref bool
-	n   int
-}
-
-type c17Stage struct {
-	kind byte // A S D
-	vals []c17Val
-}
-
-func c17ParseVal(s string) (c17Val, bool) {
-	if len(s) < 2 {
-		return c17Val{}, false
-	}
-	n, err := strconv.Atoi(s[1:])
-	if err != nil {
-		return c17Val{}, false
-	}
-	switch s[0] {
-	case 'c':
-		return c17Val{false, n}, true
-	case 'r':
-		return c17Val{true, n}, n >= 0
-	}
-	return c17Val{}, false
-}
-
-func c17ParseChain(s string) ([]c17Stage, bool) {
-	s = strings.TrimSpace(s)
-	if s == "-" {
-		return nil, true
-	}
-	var out []c17Stage
-	for _, t := range strings.Split(s, ".") {
-		if t == "" {
-			return nil, false
-		}
-		switch t[0] {
-		case 'D':
-			if t != "D" {
-				return nil, false
-			}
-			out = append(out, c17Stage{kind: 'D'})
-		case 'A':
-			v, ok := c17ParseVal(t[1:])
-			if !ok {
-				return nil, false
-			}
-			out = append(out, c17Stage{kind: 'A', vals: []c17Val{v}})
-		case 'S':
-			var vs []c17Val
-			for _, x := range strings.Split(t[1:], "+") {
-				v, ok := c17ParseVal(x)
-				if !ok {
-					return nil, false
-				}
-				vs = append(vs, v)
-			}
-			out = append(out, c17Stage{kind: 'S', vals: vs})
-		default:
-			return nil, false
-		}
-	}
-	return out, true
-}
-
-var c17Base = time.Unix(1_000_000, 0).UTC()
-
-// harness-defined filter: drops the rows with an odd index (shares metadata and row slices as they are)
-type c17DropOdd struct{}
-
-func (c17DropOdd) Filter(_ context.Context, result report.Result) (report.Result, error) {
-	return report.NewResult(result.FieldsMeta(), result.Stream().Filter(func(r timeseries.TsRecord[[]any]) bool {
-		return (r.Timestamp.Unix()-c17Base.Unix())%2 == 0
-	})), nil
-}
-
-func c17Value(v c17Val, avail []string) (report.Value, error) {
-	if v.ref {
-		if v.n >= len(avail) {
-			return nil, fmt.Errorf("ref out of range")
-		}
-		return report.NewRefFieldValue(avail[v.n]), nil
-	}
-	return report.NewConstantFieldValue(tsquery.ValueMeta{DataType: tsquery.DataTypeInteger, Required: true}, int64(v.n)), nil
-}
-
-// returns the filters of a chain and the urns of its result; urns is never written to
-func c17Filters(chain []c17Stage, urns []string, tag string) ([]report.Filter, []string, error) {
-	cur := append([]string(nil), urns...)
-	var fs []report.Filter
-	for si, st := range chain {
-		switch st.kind {
-		case 'D':
-			fs = append(fs, c17DropOdd{})
-		case 'A':
-			val, err := c17Value(st.vals[0], cur)
-			if err != nil {
-				return nil, nil, err
-			}
-			urn := fmt.Sprintf("%s%d", tag, si)
-			fs = append(fs, report.NewAppendFieldFilter(val, tsquery.AddFieldMeta{Urn: urn}))
-			cur = append(append([]string(nil), cur...), urn)
-		case 'S':
-			var sel []report.SelectedField
-			var nu []string
-			for j, v := range st.vals {
-				avail := append(append([]string(nil), cur...), nu...)
-				val, err := c17Value(v, avail)
-				if err != nil {
-					return nil, nil, err
-				}
-				urn := fmt.Sprintf("%s%d_%d", tag, si, j)
-				sel = append(sel, report.SelectedField{Value: val, Meta: tsquery.AddFieldMeta{Urn: urn}})
-				nu = append(nu, urn)
-			}
-			fs = append(fs, report.NewSelectFieldsFilter(sel))
-			cur = nu
-		}
-	}
-	return fs, cur, nil
-}
-
-type c17Source struct {
-	rows    [][]any
-	recs    []timeseries.TsRecord[[]any]
-	meta    []tsquery.FieldMeta
-	snapRow [][]any
-	snapMet []tsquery.FieldMeta
-	urns    []string
-}
-
-func c17MustMeta(urn string) tsquery.FieldMeta {
-	fm, err := tsquery.NewFieldMeta(urn, tsquery.DataTypeInteger, true)
-	if err != nil {
-		panic(err)
-	}
-	return *fm
-}
-
-func c17MakeSource(lay string, n, w, k, m int) *c17Source {
-	src := &c17Source{}
-	var big []any
-	if lay == "pack" {
-		big = make([]any, n*w+k)
-		for j := 0; j < k; j++ {
-			big[n*w+j] = int64(-1000 - j)
-		}
-	}
-	for i := 0; i < n; i++ {
-		var row []any
-		if lay == "pack" {
-			row = big[i*w : (i+1)*w]
-		} else {
-			row = make([]any, w, w+k)
-			full := row[:w+k]
-			for j := 0; j < k; j++ {
-				full[w+j] = int64(-1000 - j)
-			}
-		}
-		for j := 0; j < w; j++ {
-			row[j] = int64(100*i + j + 1)
-		}
-		src.rows = append(src.rows, row)
-		src.recs = append(src.recs, timeseries.TsRecord[[]any]{Timestamp: c17Base.Add(time.Duration(i) * time.Second), Value: row})
-	}
-	src.meta = make([]tsquery.FieldMeta, w, w+m)
-	for j := 0; j < w; j++ {
-		src.urns = append(src.urns, fmt.Sprintf("s%d", j))
-		src.meta[j] = c17MustMeta(src.urns[j])
-	}
-	fullMeta := src.meta[:w+m]
-	for j := 0; j < m; j++ {
-		fullMeta[w+j] = c17MustMeta(fmt.Sprintf("zz%d", j))
-	}
-	// deep copies of everything the caller can reach, spare cells included
-	for _, r := range src.rows {
-		src.snapRow = append(src.snapRow, append([]any(nil), r[:cap(r)]...))
-	}
-	src.snapMet = append([]tsquery.FieldMeta(nil), fullMeta...)
-	return src
-}
-
-func (src *c17Source) unchanged() bool {
-	for i, r := range src.rows {
-		full := r[:cap(r)]
-		if len(full) != len(src.snapRow[i]) {
-			return false
-		}
-		for j := range full {
-			if full[j] != src.snapRow[i][j] {
-				return false
-			}
-		}
-		if src.recs[i].Value == nil || len(src.recs[i].Value) != len(r) || &src.recs[i].Value[0] != &r[0] {
-			return false
-		}
-	}
-	full := src.meta[:cap(src.meta)]
-	if len(full) != len(src.snapMet) {
-		return false
-	}
-	for j := range full {
-		a, b := full[j], src.snapMet[j]
-		if a.Urn() != b.Urn() || a.DataType() != b.DataType() || a.Required() != b.Required() || a.Unit() != b.Unit() {
-			return false
-		}
-	}
-	return true
-}
-
-func (src *c17Source) datasource() report.DataSource {
-	ds, err := report.NewStaticDatasource(src.meta, stream.FromSlice(src.recs))
-	if err != nil {
-		panic(err)
-	}
-	return ds
-}
-
-func c17FmtRows(rows []timeseries.TsRecord[[]any]) string {
-	if len(rows) == 0 {
-		return "-"
-	}
-	parts := make([]string, len(rows))
-	for i, r := range rows {
-		vals := make([]string, len(r.Value))
-		for j, v := range r.Value {
-			switch x := v.(type) {
-			case nil:
-				vals[j] = "n"
-			case int64:
-				vals[j] = strconv.FormatInt(x, 10)
-			default:
-				vals[j] = fmt.Sprintf("?%T", v)
-			}
-		}
-		vs := strings.Join(vals, ",")
-		if len(vals) == 0 {
-			vs = "-"
-		}
-		parts[i] = fmt.Sprintf("%d:%s", r.Timestamp.Unix()-c17Base.Unix(), vs)
-	}
-	return strings.Join(parts, ";")
-}
-
-func c17FmtMeta(m []tsquery.FieldMeta) string {
-	if len(m) == 0 {
-		return "-"
-	}
-	parts := make([]string, len(m))
-	for i, f := range m {
-		parts[i] = f.Urn()
-	}
-	return strings.Join(parts, ",")
-}
-
-func c17Wrap(ds report.DataSource, fs []report.Filter) report.DataSource {
-	if len(fs) == 0 {
-		return ds
-	}
-	return report.NewFilteredDataSource(ds, fs...)
-}
-
-func c17RunCombo(lay string, n, w, k, m int, mode string, chP, chQ, chJ []c17Stage) (out string) {
-	defer func() {
-		if r := recover(); r != nil {
-			s := strings.ReplaceAll(fmt.Sprint(r), "\n", " ")
-			if len(s) > 120 {
-				s = s[:120]
-			}
-			out = "panic " + s
-		}
-	}()
-	ctx := context.Background()
-	from, to := c17Base, c17Base.Add(time.Hour)
-	src := c17MakeSource(lay, n, w, k, m)
-	fP, urnsP, err := c17Filters(chP, src.urns, "p")
-	if err != nil {
-		return "bad-case"
-	}
-	fQ, urnsQ, err := c17Filters(chQ, src.urns, "q")
-	if err != nil {
-		return "bad-case"
-	}
-	switch mode {
-	case "seq", "alt":
-		var dsP, dsQ report.DataSource
-		if mode == "seq" {
-			ds := src.datasource()
-			dsP, dsQ = c17Wrap(ds, fP), c17Wrap(ds, fQ)
-		} else {
-			dsP, dsQ = c17Wrap(src.datasource(), fP), c17Wrap(src.datasource(), fQ)
-		}
-		resP, err := dsP.Execute(ctx, from, to)
-		if err != nil {
-			return "err execP"
-		}
-		resQ, err := dsQ.Execute(ctx, from, to)
-		if err != nil {
-			return "err execQ"
-		}
-		var rowsP, rowsQ []timeseries.TsRecord[[]any]
-		if mode == "seq" {
-			if rowsP, err = resP.Stream().Collect(ctx); err != nil {
-				return "err collectP"
-			}
-			if rowsQ, err = resQ.Stream().Collect(ctx); err != nil {
-				return "err collectQ"
-			}
-		} else {
-			nextP, stopP := iter.Pull(iter.Seq[timeseries.TsRecord[[]any]](resP.Stream().Iterator))
-			defer stopP()
-			nextQ, stopQ := iter.Pull(iter.Seq[timeseries.TsRecord[[]any]](resQ.Stream().Iterator))
-			defer stopQ()
-			okP, okQ := true, true
-			for okP || okQ {
-				if okP {
-					var r timeseries.TsRecord[[]any]
-					if r, okP = nextP(); okP {
-						rowsP = append(rowsP, r)
-					}
-				}
-				if okQ {
-					var r timeseries.TsRecord[[]any]
-					if r, okQ = nextQ(); okQ {
-						rowsQ = append(rowsQ, r)
-					}
-				}
-			}
-		}
-		_ = urnsP
-		_ = urnsQ
-		return fmt.Sprintf("P=%s mP=%s Q=%s mQ=%s u=%s", c17FmtRows(rowsP), c17FmtMeta(resP.FieldsMeta()),
-			c17FmtRows(rowsQ), c17FmtMeta(resQ.FieldsMeta()), c17Bit(src.unchanged()))
-	case "joinI", "joinL", "joinF", "joinsharedI":
-		jt := report.InnerJoin
-		switch mode {
-		case "joinL":
-			jt = report.LeftJoin
-		case "joinF":
-			jt = report.FullJoin
-		}
-		var dsP, dsQ report.DataSource
-		if mode == "joinsharedI" {
-			ds := src.datasource()
-			dsP, dsQ = c17Wrap(ds, fP), c17Wrap(ds, fQ)
-		} else {
-			dsP, dsQ = c17Wrap(src.datasource(), fP), c17Wrap(src.datasource(), fQ)
-		}
-		var j report.DataSource = report.NewJoinDatasource(report.NewListMultiDatasource([]report.DataSource{dsP, dsQ}), jt)
-		fJ, _, err := c17Filters(chJ, append(append([]string(nil), urnsP...), urnsQ...), "j")
-		if err != nil {
-			return "bad-case"
-		}
-		j = c17Wrap(j, fJ)
-		res, err := j.Execute(ctx, from, to)
-		if err != nil {
-			return "err exec"
-		}
-		rows, err := res.Stream().Collect(ctx)
-		if err != nil {
-			return "err collect"
-		}
-		return fmt.Sprintf("J=%s mJ=%s u=%s", c17FmtRows(rows), c17FmtMeta(res.FieldsMeta()), c17Bit(src.unchanged()))
-	}
-	return "bad-case"
-}
-
-func c17Bit(b bool) string {
-	if b {
-		return "1"
-	}
-	return "0"
-}
-
-func c17ExecQ(text string) string {
-	parts := strings.Split(text, " | ")
-	if len(parts) != 4 {
-		return "bad-case"
-	}
-	hf := strings.Fields(parts[0])
-	if len(hf) != 5 {
-		return "bad-case"
-	}
-	lay := hf[0]
-	if lay != "sep" && lay != "pack" {
-		return "bad-case"
-	}
-	n, err1 := strconv.Atoi(strings.TrimPrefix(hf[1], "n="))
-	w, err2 := strconv.Atoi(strings.TrimPrefix(hf[2], "w="))
-	if err1 != nil || err2 != nil || n < 0 || n > 64 || w < 1 || w > 16 {
-		return "bad-case"
-	}
-	capsText := strings.TrimPrefix(hf[3], "caps=")
-	mode := hf[4]
-	chP, ok1 := c17ParseChain(parts[1])
-	chQ, ok2 := c17ParseChain(parts[2])
-	chJ, ok3 := c17ParseChain(parts[3])
-	if !ok1 || !ok2 || !ok3 {
-		return "bad-case"
-	}
-	var sb strings.Builder
-	for i, c := range strings.Split(capsText, ",") {
-		ks, ms, ok := strings.Cut(c, ":")
-		k, e1 := strconv.Atoi(ks)
-		m, e2 := strconv.Atoi(ms)
-		if !ok || e1 != nil || e2 != nil || k < 0 || m < 0 || k > 64 || m > 64 {
-			return "bad-case"
-		}
-		if i > 0 {
-			sb.WriteByte(' ')
-		}
-		fmt.Fprintf(&sb, "[%d:%d %s]", k, m, c17RunCombo(lay, n, w, k, m, mode, chP, chQ, chJ))
-	}
-	return sb.String()
-}
-
-// ---------------------------------------------------------------------------------------------
 // generators
 // ---------------------------------------------------------------------------------------------
 
@@ -924,218 +517,6 @@ func genC17D(c *Ctx) {
 			ds = append(ds, c17Deriv{c.Rng.Intn(len(ds) + 1), "WKFMLSPC"[c.Rng.Intn(8)]})
 		}
 		c17EmitD(c, root, ds)
-	}
-}
-
-func c17FmtVal(v c17Val) string {
-	if v.ref {
-		return "r" + strconv.Itoa(v.n)
-	}
-	return "c" + strconv.Itoa(v.n)
-}
-
-func c17FmtChain(ch []c17Stage) string {
-	if len(ch) == 0 {
-		return "-"
-	}
-	parts := make([]string, len(ch))
-	for i, st := range ch {
-		switch st.kind {
-		case 'D':
-			parts[i] = "D"
-		case 'A':
-			parts[i] = "A" + c17FmtVal(st.vals[0])
-		case 'S':
-			vs := make([]string, len(st.vals))
-			for j, v := range st.vals {
-				vs[j] = c17FmtVal(v)
-			}
-			parts[i] = "S" + strings.Join(vs, "+")
-		}
-	}
-	return strings.Join(parts, ".")
-}
-
-// width of the rows a chain delivers over rows of width w, and whether it keeps the source's columns
-func c17ChainShape(ch []c17Stage, w int) (width int, keepsSource bool) {
-	width, keepsSource = w, true
-	for _, st := range ch {
-		switch st.kind {
-		case 'A':
-			width++
-		case 'S':
-			width = len(st.vals)
-			keepsSource = false
-		}
-	}
-	return
-}
-
-// the stage alphabet of the exhaustive scope, instantiated for the current row width
-func c17Alphabet(width int, salt int) []c17Stage {
-	return []c17Stage{
-		{kind: 'A', vals: []c17Val{{false, 7 + salt}}},
-		{kind: 'A', vals: []c17Val{{true, width - 1}}},
-		{kind: 'S', vals: []c17Val{{true, 0}}},
-		{kind: 'S', vals: []c17Val{{false, 5 + salt}, {true, width}, {true, width - 1}}},
-		{kind: 'D'},
-	}
-}
-
-func c17AllChains(w, maxLen, salt int) [][]c17Stage {
-	var out [][]c17Stage
-	var rec func(ch []c17Stage, width int)
-	rec = func(ch []c17Stage, width int) {
-		out = append(out, append([]c17Stage(nil), ch...))
-		if len(ch) >= maxLen {
-			return
-		}
-		for _, st := range c17Alphabet(width, salt+10*len(ch)) {
-			nw := width
-			switch st.kind {
-			case 'A':
-				nw++
-			case 'S':
-				nw = len(st.vals)
-			}
-			rec(append(append([]c17Stage(nil), ch...), st), nw)
-		}
-	}
-	rec(nil, w)
-	return out
-}
-
-func c17EmitQ(c *Ctx, lay string, n, w int, caps, mode string, chP, chQ, chJ []c17Stage) {
-	// non-trivial: both pipelines (or the join) really extend rows: at least two append/select/join stages overall
-	ext := 0
-	for _, ch := range [][]c17Stage{chP, chQ, chJ} {
-		for _, st := range ch {
-			if st.kind != 'D' {
-				ext++
-			}
-		}
-	}
-	if strings.HasPrefix(mode, "join") {
-		ext++
-	}
-	c.Case(ext >= 2 && n >= 2, fmt.Sprintf("Q %s n=%d w=%d caps=%s %s | %s | %s | %s", lay, n, w, caps, mode,
-		c17FmtChain(chP), c17FmtChain(chQ), c17FmtChain(chJ)))
-}
-
-const c17CapsDiag = "0:0,1:1,2:2,3:3"
-const c17CapsAll = "0:0,0:1,0:2,0:3,1:0,1:1,1:2,1:3,2:0,2:1,2:2,2:3,3:0,3:1,3:2,3:3"
-
-func genC17Q(c *Ctx) {
-	n, w := 3, 2
-	short := c17AllChains(w, 2, 0)
-	shortQ := c17AllChains(w, 2, 100)
-	capsShort := c17CapsDiag
-	if c.Thorough {
-		capsShort = c17CapsAll
-	}
-	lays := []string{"sep", "pack"}
-	joinPost := [][]c17Stage{nil}
-	// exhaustive: all pairs of chains of length <= 2, every mode
-	idx := 0
-	for _, p := range short {
-		for _, q := range shortQ {
-			lay := lays[idx%2]
-			idx++
-			c17EmitQ(c, lay, n, w, capsShort, "seq", p, q, nil)
-			c17EmitQ(c, lays[idx%2], n, w, capsShort, "alt", p, q, nil)
-			_, keepP := c17ChainShape(p, w)
-			_, keepQ := c17ChainShape(q, w)
-			if keepP && keepQ {
-				continue // both sides would carry the source's urns: the join rejects duplicate urns
-			}
-			wp, _ := c17ChainShape(p, w)
-			wq, _ := c17ChainShape(q, w)
-			for _, jm := range []string{"joinI", "joinL", "joinF"} {
-				post := joinPost[0]
-				switch c.Rng.Intn(3) {
-				case 1:
-					post = []c17Stage{{kind: 'A', vals: []c17Val{{true, c.Rng.Intn(wp + wq)}}}}
-				case 2:
-					post = []c17Stage{{kind: 'S', vals: []c17Val{{true, wp + wq - 1}, {false, 3}, {true, wp + wq + 1}}}}
-				}
-				c17EmitQ(c, lay, n, w, capsShort, jm, p, q, post)
-			}
-		}
-	}
-	// thorough: P up to 3 stages against Q up to 2, diagonal capacities
-	if c.Thorough {
-		long := c17AllChains(w, 3, 0)
-		for _, p := range long {
-			if len(p) < 3 {
-				continue
-			}
-			for _, q := range shortQ {
-				lay := lays[idx%2]
-				idx++
-				mode := []string{"seq", "alt"}[idx%2]
-				c17EmitQ(c, lay, n, w, c17CapsDiag, mode, p, q, nil)
-				_, keepP := c17ChainShape(p, w)
-				_, keepQ := c17ChainShape(q, w)
-				if !(keepP && keepQ) {
-					c17EmitQ(c, lay, n, w, c17CapsDiag, []string{"joinI", "joinL", "joinF"}[idx%3], p, q, nil)
-					c17EmitQ(c, lay, n, w, c17CapsDiag, []string{"joinL", "joinF", "joinI"}[idx%3], q, p, nil)
-				}
-			}
-		}
-	}
-	// seeded random larger ones
-	cnt := c.Pick(300, 12000)
-	for i := 0; i < cnt; i++ {
-		rn := c.Rng.Range(1, 6)
-		rw := c.Rng.Range(1, 4)
-		randChain := func(maxLen int, width int) []c17Stage {
-			var ch []c17Stage
-			ln := c.Rng.Intn(maxLen + 1)
-			for s := 0; s < ln; s++ {
-				rv := func(avail int) c17Val {
-					if c.Rng.Bool() {
-						return c17Val{true, c.Rng.Intn(avail)}
-					}
-					return c17Val{false, c.Rng.Range(-50, 50)}
-				}
-				switch c.Rng.Intn(5) {
-				case 0:
-					ch = append(ch, c17Stage{kind: 'D'})
-				case 1, 2:
-					ch = append(ch, c17Stage{kind: 'A', vals: []c17Val{rv(width)}})
-					width++
-				default:
-					k := c.Rng.Range(1, 4)
-					var vs []c17Val
-					for j := 0; j < k; j++ {
-						vs = append(vs, rv(width+j))
-					}
-					ch = append(ch, c17Stage{kind: 'S', vals: vs})
-					width = k
-				}
-			}
-			return ch
-		}
-		p := randChain(4, rw)
-		q := randChain(4, rw)
-		var caps []string
-		for x := 0; x < 3; x++ {
-			caps = append(caps, fmt.Sprintf("%d:%d", c.Rng.Intn(6), c.Rng.Intn(6)))
-		}
-		caps = append(caps, "0:0")
-		mode := []string{"seq", "alt", "joinI", "joinL", "joinF"}[c.Rng.Intn(5)]
-		var post []c17Stage
-		if strings.HasPrefix(mode, "join") {
-			_, keepP := c17ChainShape(p, rw)
-			_, keepQ := c17ChainShape(q, rw)
-			if keepP && keepQ {
-				q = append(q, c17Stage{kind: 'S', vals: []c17Val{{true, 0}}})
-			}
-			wp, _ := c17ChainShape(p, rw)
-			wq, _ := c17ChainShape(q, rw)
-			post = randChain(2, wp+wq)
-		}
-		c17EmitQ(c, lays[c.Rng.Intn(2)], rn, rw, strings.Join(caps, ","), mode, p, q, post)
 	}
 }
 
